@@ -452,9 +452,10 @@ func gen(c *harness.C) []harness.Case {
 		plans = append(plans, plan{cfg{"loud", 6, 4}, 0})
 	} else {
 		for _, m := range []string{"loud", "silent"} {
-			plans = append(plans, plan{cfg{m, 3, 2}, 1})
+			plans = append(plans, plan{cfg{m, 3, 2}, 2})
 		}
-		for _, k := range []cfg{{"loud", 2, 2}, {"loud", 3, 3}, {"loud", 4, 3}, {"silent", 2, 2}, {"silent", 3, 3}, {"silent", 4, 3}} {
+		plans = append(plans, plan{cfg{"loud", 2, 2}, 3}, plan{cfg{"silent", 2, 2}, 3}, plan{cfg{"loud", 3, 3}, 1}, plan{cfg{"silent", 3, 3}, 1})
+		for _, k := range []cfg{{"loud", 4, 3}, {"silent", 4, 3}, {"loud", 4, 2}, {"loud", 5, 3}} {
 			plans = append(plans, plan{k, 0})
 		}
 	}
